@@ -25,6 +25,8 @@ from mc import c16events, lib, refcodec
 
 M = c16events.M
 UTC = datetime.timezone.utc
+BUF_QD = c16events.BUF_QD
+BUF_HDR = c16events.BUF_HDR
 
 
 class Hook:
@@ -158,8 +160,20 @@ def outers(p):
         return p.encode.field_array(['first', HookStr('élan'),
                                      {'k': HookStr('v')}, 'last']).hex()
 
+    def view(out):
+        consumed, ch, obj = out
+        return [consumed, ch, repr(lib.frame_summary(obj))]
+
+    def decode_declare():       # reaches application code only if the
+        return view(p.frame.unmarshal(BUF_QD))      # decoder logs
+
+    def decode_header():
+        return view(p.frame.unmarshal(BUF_HDR))
+
     return [('marshal ContentHeader with over-long header names (log record)',
              header_long_key),
+            ('unmarshal Queue.Declare', decode_declare),
+            ('unmarshal ContentHeader', decode_header),
             ('marshal Queue.Declare with over-long argument names (log '
              'record)', declare_long_key),
             ('marshal Queue.Declare with a dict subclass', declare_hook_dict),
@@ -168,10 +182,6 @@ def outers(p):
             ('marshal Basic.Publish with a str subclass', publish_hook_str),
             ('marshal ContentHeader with a tzinfo', header_hook_tz),
             ('field_array with str subclasses', array_hook_str)]
-
-
-BUF_QD = c16events.BUF_QD
-BUF_HDR = c16events.BUF_HDR
 
 
 def inners(p):
@@ -219,7 +229,12 @@ def explore(ctx, outer_index):
     saved_disable = logging.root.manager.disable
     saved_level = root.level
     root.addHandler(handler)
-    root.setLevel(logging.WARNING)
+    root.setLevel(logging.DEBUG)     # whatever the library logs reaches us
+    pamqp_levels = [(logging.getLogger(n), logging.getLogger(n).level)
+                    for n in list(logging.root.manager.loggerDict)
+                    if n == 'pamqp' or n.startswith('pamqp.')]
+    for lg, _lvl in pamqp_levels:
+        lg.setLevel(logging.DEBUG)
     logging.disable(logging.NOTSET)
     try:
         label, outer = outers(p)[outer_index]
@@ -275,6 +290,8 @@ def explore(ctx, outer_index):
     finally:
         HOOK.inner = None
         logging.disable(saved_disable)
+        for lg, lvl in pamqp_levels:
+            lg.setLevel(lvl)
         root.setLevel(saved_level)
         root.removeHandler(handler)
 
@@ -284,4 +301,4 @@ def _short(v):
     return s if len(s) <= 160 else s[:150] + '...(%d)' % len(s)
 
 
-N_OUTERS = 8
+N_OUTERS = 10
